@@ -109,7 +109,9 @@ def gen_table(r):
     mpr = 1 if r.random() < 0.5 else 0
     known = []
     if r.random() < 0.5:
-        pool = UNKNOWN_CRIT + UNKNOWN_ELEC
+        # 9 (OSCORE) is never registered: "application knows the OSCORE option but the library
+        # has no OSCORE context" is a corner of C14's code path, not of this property
+        pool = [n for n in UNKNOWN_CRIT + UNKNOWN_ELEC if n != 9]
         known = r.sample(pool, r.choice([1, 1, 2, 3, 7, 9]))
     nres = r.choice([0, 1, 2, 3, 4, 6])
     segs = r.sample(PATHS, nres)
